@@ -167,6 +167,32 @@ pub fn run(ctx: &Ctx) -> i32 {
         }
     }
 
+    // ---- 2b. long messages: lengths around every power of two up to 2^18 (a length or index
+    // counter narrower than usize shows here and nowhere else)
+    {
+        let mut lens: Vec<usize> = Vec::new();
+        for p in 8..=18u32 {
+            for d in [-1i64, 0, 1, 7] {
+                lens.push(((1i64 << p) + d) as usize);
+            }
+        }
+        lens.extend_from_slice(&[3000, 4096 + 512, 70_000, 100_001, 200_000]);
+        let r = report::parallel(ctx.threads, lens.len(), |i, rep| {
+            let n = lens[i];
+            let mut rng = Rng::from_parts(&[ctx.seed, 19, 0x10_0000 + n as u64]);
+            let mut m = vec![0u8; n];
+            rng.fill(&mut m);
+            check_msg(&m, rep, "long");
+            // ... and an all-zero body with one set bit near the front: a dropped prefix is fatal
+            let mut z = vec![0u8; n];
+            z[0] = 0x80;
+            check_msg(&z, rep, "long");
+            rep.count("long_messages", 2);
+            rep.max("max_message_length", n as u64);
+        });
+        total.merge(r);
+    }
+
     // ---- 3. single-bit basis messages of lengths 5, 16, 512, 514 -----------------------------
     let lens = [5usize, 16, 512, 514];
     let r = report::parallel(ctx.threads, lens.len(), |i, rep| {
